@@ -14,6 +14,11 @@ from .. import core
 from .. import cases
 
 
+# a flattening vendor has no "re-send the block" (%rewrite is not used by its rulebooks), and a rule that begins with the negation word
+# cannot be told from a removal in a flat command line
+FLAT_SKIP = {"rewrite", "rewrite-values", "ordered-rewrite", "rewrite-deep", "catch-all"}
+
+
 def real_patch(cat, k, old_j, new_j):
     from annet import api
     rb = cat.compiled[k - 1]
@@ -34,10 +39,10 @@ def run(ctx):
                        "non-trivial = distinct (rulebook, old, new) whose patch has at least one command")
     ctx.assumptions += ["device model: one line per (rule,key); block headers fully determined by (rule,key)",
                         "documented contracts of permanent / ignore_changes are part of the oracle (Conv)",
-                        "block-structured vendor profiles (huawei, cisco, pc, ...); flattening vendors (juniper, nokia, routeros) not covered"]
+                        "block-structured vendor profiles (huawei, cisco, pc, ...) and the flattening vendor juniper (set / delete lines segmented by the rulebook; catalogue entries without %rewrite); nokia and routeros not covered"]
     mc_converge(ctx, quick)
     limit = 900 if quick else 30000
-    profiles = ["huawei", "cisco"] if quick else ["huawei", "cisco", "pc", "arista", "h3c", "nexus"]
+    profiles = ["huawei", "cisco", "juniper"] if quick else ["huawei", "cisco", "juniper", "pc", "arista", "h3c", "nexus"]
     import os
     if os.environ.get("VERIF_PROFILES"):          # debugging aid: restrict the vendor profiles of this run
         profiles = os.environ["VERIF_PROFILES"].split(",")
@@ -49,6 +54,8 @@ def run(ctx):
         # ---- round 1: old -> new1
         r1 = []
         for k in range(1, len(cat.entries) + 1):
+            if prof in cases.FLAT and cat.names[k - 1] in FLAT_SKIP:
+                continue
             pairs, exh = cat.pairs(k, lim, rnd)
             total_exh = total_exh and exh
             for (o, n) in pairs:
